@@ -591,6 +591,39 @@ pub fn check_tree(root: &T, acc: &mut Acc) {
             }
             texts.push(text);
         }
+        // conversion route: built as standard tables / arrays of tables (route 0), then every root entry of those kinds
+        // turned into a value with make_value(): `[t]` / `[[t.v]]` -> `t = { v = [{..}] }`
+        if let T::Tab(e) = root {
+            if e.iter().any(|(_, v)| matches!(v, T::Tab(_) | T::Aot(_))) {
+                fn inl(t: &T) -> T {
+                    match t {
+                        T::Tab(e) | T::Inl(e) => T::Inl(e.iter().map(|(k, v)| (k.clone(), inl(v))).collect()),
+                        T::Aot(els) => T::Arr(els.iter().map(|el| T::Inl(el.iter().map(|(k, v)| (k.clone(), inl(v))).collect())).collect()),
+                        T::Arr(a) => T::Arr(a.iter().map(inl).collect()),
+                        T::Leaf(_) => t.clone(),
+                    }
+                }
+                let mut doc = build_doc(root, 0);
+                for (k, v) in e {
+                    if matches!(v, T::Tab(_) | T::Aot(_)) {
+                        if let Some(item) = doc.get_mut(k) {
+                            item.make_value();
+                        }
+                    }
+                }
+                let text = doc.to_string();
+                let Verdict::Valid { tree, .. } = ref_parse(&text) else {
+                    return Err((None, format!("after make_value() on the root's tables the printed text is not valid TOML: {:?}", text)));
+                };
+                let want_inl = T::Tab(e.iter().map(|(k, v)| (k.clone(), if matches!(v, T::Tab(_) | T::Aot(_)) { inl(v) } else { v.clone() })).collect());
+                let (mut got, mut w) = (String::new(), String::new());
+                canon_node(&tree, &mut got);
+                canon_t(&want_inl, &mut w);
+                if got != w {
+                    return Err((None, format!("after make_value() on the root's tables the printed text {:?} decodes to {} instead of {}", text, got, w)));
+                }
+            }
+        }
         // (whether two construction routes give byte-identical text is not promised - "the same structure prints the same
         // text" is about one structure printed twice, checked above; each route's text is held to validity, decoding,
         // and the fixed point on its own.  Differences between routes are only tallied.)
@@ -636,6 +669,14 @@ pub fn check_tree(root: &T, acc: &mut Acc) {
 /// documents that are the result of a short API history rather than of plain construction: array / array-of-tables
 /// slots vacated through mutable indexing, and value objects that carry decor from a previous life (lifted out of a
 /// `key = value # comment` line, or decorated by hand) handed to the entry points that apply default formatting
+fn gcd(a: usize, b: usize) -> usize {
+    if b == 0 {
+        a
+    } else {
+        gcd(b, a % b)
+    }
+}
+
 fn api_state_family(rep: &mut Report) {
     let t0 = std::time::Instant::now();
     let mut acc = Acc::default();
@@ -772,8 +813,54 @@ fn api_state_family(rep: &mut Report) {
             }
         }
     }
+    // (c) wide documents: tables created through the API carry no position of their own and are printed relative to
+    // their neighbours; with more than 20 of them any instability in that ordering shows
+    for n in [0usize, 1, 2, 3, 19, 20, 21, 22, 23, 33, 48] {
+        for parsed_prefix in [false, true] {
+            // n standard tables
+            let mut doc: DocumentMut = if parsed_prefix { "[zz]\nq = 0\n[aa]\nq = 1\n".parse().unwrap() } else { DocumentMut::new() };
+            let mut want: Vec<(String, T)> = if parsed_prefix { vec![("zz".into(), T::Tab(vec![("q".into(), T::Leaf(Leaf::I(0)))])), ("aa".into(), T::Tab(vec![("q".into(), T::Leaf(Leaf::I(1)))]))] } else { vec![] };
+            for i in 0..n {
+                let mut t = Table::new();
+                t.insert("x", toml_edit::value(i as i64));
+                let mut sub = Table::new();
+                sub.insert("y", toml_edit::value(i as i64));
+                t.insert("s", Item::Table(sub));
+                // (keys chosen so that tree order, insertion order and alphabetical order all differ)
+                let step = (7..).find(|s| gcd(*s, n.max(1)) == 1).unwrap();
+                let k = format!("t{:02}", (i * step) % n.max(1));
+                doc.insert(&k, Item::Table(t));
+                want.push((k, T::Tab(vec![("x".into(), T::Leaf(Leaf::I(i as i64))), ("s".into(), T::Tab(vec![("y".into(), T::Leaf(Leaf::I(i as i64)))]))])));
+            }
+            judge(&mut acc, format!("{} tables inserted through the API{}", n, if parsed_prefix { " after two parsed headers in reverse order" } else { "" }), &doc, T::Tab(want));
+            // one array of tables with n elements, each with a sub-table and a nested array of tables
+            if n > 0 {
+                let mut doc: DocumentMut = if parsed_prefix { "[zz]\nq = 0\n[aa]\nq = 1\n".parse().unwrap() } else { DocumentMut::new() };
+                let mut a = ArrayOfTables::new();
+                let mut els = Vec::new();
+                for i in 0..n {
+                    let mut t = Table::new();
+                    t.insert("x", toml_edit::value(i as i64));
+                    let mut sub = Table::new();
+                    sub.insert("y", toml_edit::value(i as i64));
+                    t.insert("s", Item::Table(sub));
+                    let mut inner = ArrayOfTables::new();
+                    let mut it = Table::new();
+                    it.insert("z", toml_edit::value(i as i64));
+                    inner.push(it);
+                    t.insert("n", Item::ArrayOfTables(inner));
+                    a.push(t);
+                    els.push(vec![("x".to_string(), T::Leaf(Leaf::I(i as i64))), ("s".to_string(), T::Tab(vec![("y".into(), T::Leaf(Leaf::I(i as i64)))])), ("n".to_string(), T::Aot(vec![vec![("z".to_string(), T::Leaf(Leaf::I(i as i64)))]]))]);
+                }
+                doc.insert("item", Item::ArrayOfTables(a));
+                let mut want: Vec<(String, T)> = if parsed_prefix { vec![("zz".into(), T::Tab(vec![("q".into(), T::Leaf(Leaf::I(0)))])), ("aa".into(), T::Tab(vec![("q".into(), T::Leaf(Leaf::I(1)))]))] } else { vec![] };
+                want.push(("item".into(), T::Aot(els)));
+                judge(&mut acc, format!("an array of {} tables (each with a sub-table and a nested array of tables) inserted through the API{}", n, if parsed_prefix { " after two parsed headers in reverse order" } else { "" }), &doc, T::Tab(want));
+            }
+        }
+    }
     let n = acc.evals;
-    rep.absorb("U-api-state", "arrays / arrays of tables of 1-4 elements (built and parsed) with every non-empty set of slots vacated through mutable indexing (+ make_value afterwards); values carrying decor from a previous life x the 4 entry points of Array documented to apply default formatting (push, insert at both ends, replace) x 3 start arrays", n, true, t0, acc);
+    rep.absorb("U-api-state", "arrays / arrays of tables of 1-4 elements (built and parsed) with every non-empty set of slots vacated through mutable indexing (+ make_value afterwards); values carrying decor from a previous life x the 4 entry points of Array documented to apply default formatting (push, insert at both ends, replace) x 3 start arrays; wide documents (0-48 tables / array-of-tables elements with sub-tables inserted through the API, with and without parsed out-of-order headers before them)", n, true, t0, acc);
 }
 
 pub fn c06(tier: Tier) -> i32 {
